@@ -14,7 +14,7 @@ from harness.common import Ctx
 
 THEOREM_MODULES = ['ExaModel.Props.C05']
 DRIVERS = ['drv_session']
-TABLES = ['fsm']
+TABLES = ['fsm', 'pypeer']
 ASSUMPTIONS = [
     'events reach the peer while its coroutine is suspended at a read, at the pending connect or in the restart loop (one event at a time; the 1 ms pause between two main-loop iterations is not an injection point)',
     'one main-loop iteration flushes the pending routes (the rig keeps batches below the 25 messages per iteration); the periodic KEEPALIVE of the established session is C12\'s and is not compared',
